@@ -1,7 +1,7 @@
 (* C03 - normal ordering yields the canonical form of the same operator. *)
 From Coq Require Import ZArith NArith List Bool.
 From OFV Require Import Base.Cplx Base.Lin Sem.PauliSem Sem.FermiSem Sem.BoseSem Model.SymbolicOp Model.LadderOp
-  Model.NormalOrder Thm.C01.SymHom Thm.C03.CAR Thm.C03.NormalOrderB Thm.C03.NormalOrderF Thm.C03.NormalOrderFix Check.OpEquiv.
+  Model.NormalOrder Thm.C01.SymHom Thm.C03.CAR Thm.C03.NormalOrderB Thm.C03.NormalOrderF Thm.C03.NormalOrderFix Thm.C03.NormalOrderSorted Check.OpEquiv.
 Import ListNotations.
 
 (* the rewrite rules normal ordering applies are identities of the Fock-space semantics,
@@ -43,6 +43,23 @@ Theorem C03_normal_ordered_word_fixed : forall t c, adj_ok fermi_pair_ok t = tru
   no_fermi_term t c = [(t, c)].
 Proof. exact normal_ordered_word_fixed. Qed.
 Print Assumptions C03_normal_ordered_word_fixed.
+
+(* [F] every term the model returns is in normal order (the double loop is an insertion sort with an early exit on a repeated
+   factor; contraction terms are normal-ordered recursively) - for every word, every operator, with the code's pruning tolerance *)
+Theorem C03_normal_ordered_term_is_ordered : forall t c, is_normal_ordered_fermi (no_fermi_term t c) = true.
+Proof. exact no_fermi_term_sorted. Qed.
+Print Assumptions C03_normal_ordered_term_is_ordered.
+Theorem C03_normal_ordered_is_ordered : forall op, is_normal_ordered_fermi (normal_ordered_fermi op) = true.
+Proof. exact normal_ordered_fermi_sorted. Qed.
+Print Assumptions C03_normal_ordered_is_ordered.
+(* ... hence normal ordering is idempotent term by term: each returned term is a fixed point *)
+Theorem C03_normal_ordering_idempotent_on_terms : forall t c t' c', In (t', c') (no_fermi_term t c) ->
+  small_tol (Cadd C0 c') = false -> no_fermi_term t' c' = [(t', c')].
+Proof.
+  intros t c t' c' Hin Hc. apply normal_ordered_word_fixed; [|exact Hc].
+  pose proof (no_fermi_term_sorted t c) as H. unfold is_normal_ordered_fermi in H. rewrite forallb_forall in H. exact (H _ Hin).
+Qed.
+Print Assumptions C03_normal_ordering_idempotent_on_terms.
 
 (* [B] complete bounded domains (stated): the model of normal_ordered_ladder_term / _quad_term
    preserves the denotation, produces normal-ordered terms, and is idempotent *)
